@@ -197,7 +197,7 @@ Definition m_dups (c : call) (v : sfv) : res :=
 
 (* ==== member.go / member-if.go ===================================================================== *)
 (* the list argument is looked at first (nil returns nil before any keyword is read); then the keyword
-   loop (:key, :test for member; :key for member-if), then the scan; the result is list[i:] *)
+   loop (:key, :test, :test-not for member; :key for member-if), then the scan; the result is list[i:] *)
 Fixpoint drop_until (p : Z -> bool) (l : list Z) : list Z :=
   match l with [] => [] | x :: t => if p x then l else drop_until p t end.
 Definition m_member (c : call) : res :=
@@ -205,7 +205,6 @@ Definition m_member (c : call) : res :=
   | SNil => RSeq []
   | SList l =>
       match c_fn c, c_test c with
-      | FMember, TTestNot _ => RErr EType
       | FMember, t => RSeq (drop_until (item_match t (c_item c) (c_key c)) l)
       | _, TDefault => RSeq (drop_until (if_match (c_pred c) (c_key c)) l)
       | _, _ => RErr EType
@@ -215,7 +214,7 @@ Definition m_member (c : call) : res :=
 
 (* ==== assoc.go assoc-if.go assoc-if-not.go rassoc.go rassoc-if.go ================================= *)
 (* alist, ok := args[1].(slip.List); if !ok && args[1] != nil { TypePanic }: the Go nil is the empty
-   alist.  With :test the call is test(item, key).  The alist is (k1 . v1) ... given as two lists. *)
+   alist.  With :test the call is test(item, key), with :test-not its negation.  The alist is (k1 . v1) ... given as two lists. *)
 Definition assoc_test (t : testarg) (item k : Z) : bool :=
   match t with TDefault => item =? k | TTest f => test_app f item k | TTestNot f => negb (test_app f item k) end.
 Definition pair_res (o : option (Z * Z)) : res := match o with Some (k, v) => RSeq [k; v] | None => RNil end.
@@ -227,7 +226,6 @@ Definition m_assoc (c : call) : res :=
       let al := combine ks (elems (c_seq2 c)) in
       let side (kv : Z * Z) := match c_fn c with FRassoc | FRassocIf => snd kv | _ => fst kv end in
       match c_fn c, c_test c with
-      | (FAssoc | FRassoc), TTestNot _ => RErr EType
       | (FAssoc | FRassoc), t => pair_res (find (fun kv => assoc_test t (c_item c) (key_app (c_key c) (side kv))) al)
       | FAssocIfNot, TDefault => pair_res (find (fun kv => negb (pred_app (c_pred c) (key_app (c_key c) (side kv)))) al)
       | _, TDefault => pair_res (find (fun kv => pred_app (c_pred c) (key_app (c_key c) (side kv))) al)
@@ -248,8 +246,7 @@ Fixpoint prefix_match (t : testarg) (a b : list Z) : bool :=
   end.
 Definition m_search (c : call) : res :=
   match c_test c with
-  | TTestNot _ => RErr EType
-  | t =>
+  | t =>                                            (* :test-not f is the test "not f" *)
       let l1 := elems (c_seq c) in let l2 := elems (c_seq2 c) in
       let s1 := match c_start c with Some n => n | None => 0%nat end in
       let s2 := match c_start2 c with Some n => n | None => 0%nat end in
@@ -306,8 +303,7 @@ Fixpoint mm_bwd (t : testarg) (k : option keyfn) (len1 : nat) (a b : list Z) (i 
   end.
 Definition m_mismatch (c : call) : res :=
   match c_test c with
-  | TTestNot _ => RErr EType
-  | t =>
+  | t =>                                            (* :test-not f is the test "not f" *)
       match seq_to_list (c_seq c) (c_start c) (c_end c) with
       | LErr e => RErr e
       | LOk w1 =>
@@ -409,7 +405,6 @@ Definition is_list_arg (s : seqin) : bool := match s with SNil | SList _ => true
 Definition m_union (c : call) : res :=
   if is_list_arg (c_seq c) && is_list_arg (c_seq2 c) then
     match c_test c with
-    | TTestNot _ => RErr EType
     | t => RSeq (m_union_loop t (c_key c) (elems (c_seq c) ++ elems (c_seq2 c)) [])
     end
   else RErr EType.
@@ -427,7 +422,6 @@ Fixpoint m_inter_loop (t : testarg) (k : option keyfn) (l1 keys2 keys : list Z) 
 Definition m_intersection (c : call) : res :=
   if is_list_arg (c_seq c) && is_list_arg (c_seq2 c) then
     match c_test c with
-    | TTestNot _ => RErr EType
     | t => match c_seq c, c_seq2 c with
            | SNil, _ | _, SNil => RSeq []
            | s1, s2 => RSeq (m_inter_loop t (c_key c) (elems s1) (map (key_app (c_key c)) (elems s2)) [])
